@@ -27,6 +27,7 @@ import (
 
 type iosEntry struct {
 	Seq  int
+	Gdoi bool     // `crypto map N S gdoi` (GETVPN, configured by hand): the tool leaves such a map and its bindings alone
 	Subs []string // `set peer P`, `set ip access-group A in`, lines the tool does not model (`match address X`)
 }
 
@@ -55,7 +56,7 @@ func (d *iosDev) clone() *iosDev {
 	}
 	for _, n := range d.MOrder {
 		for _, e := range d.Maps[n] {
-			c.Maps[n] = append(c.Maps[n], &iosEntry{e.Seq, append([]string{}, e.Subs...)})
+			c.Maps[n] = append(c.Maps[n], &iosEntry{e.Seq, e.Gdoi, append([]string{}, e.Subs...)})
 		}
 	}
 	c.MOrder = append([]string{}, d.MOrder...)
@@ -79,7 +80,11 @@ func (d *iosDev) print() string {
 	}
 	for _, n := range d.MOrder {
 		for _, e := range d.Maps[n] {
-			fmt.Fprintf(&sb, "crypto map %s %d ipsec-isakmp\n", n, e.Seq)
+			kind := "ipsec-isakmp"
+			if e.Gdoi {
+				kind = "gdoi"
+			}
+			fmt.Fprintf(&sb, "crypto map %s %d %s\n", n, e.Seq, kind)
 			for _, s := range e.Subs {
 				sb.WriteString(" " + s + "\n")
 			}
@@ -126,9 +131,9 @@ func parseIOS(text string) *iosDev {
 		case len(w) == 2 && w[0] == "interface":
 			curI = &iosIntf{Name: w[1]}
 			d.Intfs = append(d.Intfs, curI)
-		case len(w) == 5 && w[0] == "crypto" && w[1] == "map" && w[4] == "ipsec-isakmp":
+		case len(w) == 5 && w[0] == "crypto" && w[1] == "map" && (w[4] == "ipsec-isakmp" || w[4] == "gdoi"):
 			n, _ := strconv.Atoi(w[3])
-			curE = &iosEntry{Seq: n}
+			curE = &iosEntry{Seq: n, Gdoi: w[4] == "gdoi"}
 			if _, ok := d.Maps[w[2]]; !ok {
 				d.MOrder = append(d.MOrder, w[2])
 			}
@@ -335,8 +340,8 @@ func (d *iosDev) view(intfs []string) string {
 				i = x
 			}
 		}
-		if i == nil || i.Crypto == "" {
-			out = append(out, "["+n+"] none")
+		if i == nil || i.Crypto == "" || d.isGdoi(i.Crypto) {
+			out = append(out, "["+n+"] none") // a GDOI map is not Netspoc's
 			continue
 		}
 		var es []string
@@ -358,6 +363,29 @@ func (d *iosDev) view(intfs []string) string {
 		out = append(out, "["+n+"] "+strings.Join(es, " "))
 	}
 	return strings.Join(out, "\n") + "\n"
+}
+
+func (d *iosDev) isGdoi(m string) bool {
+	es := d.Maps[m]
+	return len(es) > 0 && es[0].Gdoi
+}
+
+// gdoiFrame: the GDOI maps with their entries and the interfaces bound to them.
+func (d *iosDev) gdoiFrame() string {
+	var out []string
+	for _, n := range d.MOrder {
+		if d.isGdoi(n) {
+			for _, e := range d.Maps[n] {
+				out = append(out, fmt.Sprintf("crypto map %s %d gdoi: %s", n, e.Seq, strings.Join(e.Subs, "; ")))
+			}
+		}
+	}
+	for _, i := range d.Intfs {
+		if i.Crypto != "" && d.isGdoi(i.Crypto) {
+			out = append(out, "interface "+i.Name+" crypto map "+i.Crypto)
+		}
+	}
+	return strings.Join(out, "\n")
 }
 
 func (d *iosDev) leftovers() []string {
@@ -515,12 +543,48 @@ func genIOS(r *RNG) iosCase {
 			}
 		}
 	}
+	// GETVPN configured by hand on an interface that has no crypto map in the target: map and binding must survive
+	if r.Chance(15) {
+		for _, i := range a.Intfs {
+			if i.Crypto == "" {
+				nm := Pick(r, []string{"GD", "GDOI-03"})
+				if _, ok := a.Maps[nm]; !ok {
+					a.Maps[nm] = []*iosEntry{{Seq: 10, Gdoi: true, Subs: []string{"set group " + nm}}}
+					a.MOrder = append(a.MOrder, nm)
+				}
+				i.Crypto = nm
+				say("gdoi-crypto-map-on-device")
+				break
+			}
+		}
+	}
 	// ACLs the mutations orphaned stay on the device as left-overs (generated names) or manual objects
 	return iosCase{Dev: a.print(), Spoc: b.print(), Note: note}
 }
 
 func iosCorpus() []iosCase {
 	return []iosCase{
+		{Note: []string{"corpus:gdoi-map-and-binding-stay"}, Dev: `hostname r1
+crypto map GDOI-03 10 gdoi
+ set group GDOI-03
+crypto map VPN 1 ipsec-isakmp
+ set peer 10.156.4.1
+interface Ethernet0
+ ip address 10.1.0.1 255.255.255.0
+ crypto map GDOI-03
+interface Ethernet1
+ ip address 10.1.1.1 255.255.255.0
+ crypto map VPN
+`, Spoc: `crypto map crypto-Ethernet1 1 ipsec-isakmp
+ set peer 10.156.4.1
+crypto map crypto-Ethernet1 2 ipsec-isakmp
+ set peer 10.156.4.2
+interface Ethernet0
+ ip address 10.1.0.1 255.255.255.0
+interface Ethernet1
+ ip address 10.1.1.1 255.255.255.0
+ crypto map crypto-Ethernet1
+`},
 		{Note: []string{"corpus:fresh-numbers-with-gaps"}, Dev: `hostname r1
 crypto map VPN 1 ipsec-isakmp
  set peer 10.156.4.1
@@ -577,6 +641,14 @@ func runIOS(ctx *Ctx) *Result {
 	defer os.RemoveAll(workDir)
 	lean := newLeanTie(ctx, res)
 	defer lean.close()
+	iosRun(ctx, res, lean, ctx.N(1500, 30000), true)
+	lean.finish()
+	return res
+}
+
+// iosRun: the IOS cases (corpus + n random ones), or the replay file if it holds an IOS case; also called from the ASA
+// run under C07 / C08 so that the IOS crypto code is driven under these properties too.
+func iosRun(ctx *Ctx, res *Result, lean *leanTie, n int, replay bool) {
 	sig := func(pred string, extra ...string) map[string]any {
 		m := map[string]any{"frag": "ios-crypto", "pred": pred}
 		for i := 0; i+1 < len(extra); i += 2 {
@@ -621,6 +693,12 @@ func runIOS(ctx *Ctx) *Result {
 		if len(res.Samples) < 3 && len(cmds) > 5 {
 			res.Sample(map[string]any{"device": c.Dev, "netspoc": c.Spoc, "script": out})
 		}
+		if g0 := dev.gdoiFrame(); g0 != "" {
+			res.Count("gdoi-frames-compared")
+			if g1 := final.gdoiFrame(); g1 != g0 {
+				res.Fail(sig("gdoi_crypto_map_touched"), "a GDOI crypto map or its binding changed:\n"+g1+"\n-- before\n"+g0+"\n-- script\n"+out, c)
+			}
+		}
 		if got := final.view(intfs); got != want {
 			res.Fail(sig("not_converged"), "after executing the script the crypto maps differ from the target:\n"+got+"-- want\n"+want+"-- script\n"+out, c)
 			return
@@ -655,17 +733,16 @@ func runIOS(ctx *Ctx) *Result {
 			fmt.Fprintln(os.Stderr, err)
 			os.Exit(2)
 		}
-		runCase(c)
-		return res
+		if c.Dev != "" || replay {
+			runCase(c)
+		}
+		return
 	}
 	for _, c := range iosCorpus() {
 		res.Count("corpus")
 		runCase(c)
 	}
-	n := ctx.N(1500, 30000)
 	for i := 0; i < n; i++ {
 		runCase(genIOS(ctx.Rng.Fork()))
 	}
-	lean.finish()
-	return res
 }
